@@ -297,6 +297,25 @@ def tiling_clauses(points, lat, P, S, T, vt, shifted):
     return bad
 
 
+def unshifted_containment_ok(points):
+    """the same point set with shift_vertices=False: every plaquette contains its seed (exact)"""
+    try:
+        n = len(points)
+        lat = voronization.generate_lattice(points.copy(), shift_vertices=False)
+        Lpos = np.array(lat.vertices.positions, dtype=float)
+        S = max(common_scale(points), common_scale(Lpos))
+        P = [(int(Fraction(float(x)) * S), int(Fraction(float(y)) * S)) for x, y in points]
+        T = build_cert(P, S, False, 3 if n <= 10 else 2)
+        if len(T) != 2 * n or len(Lpos) != 2 * n:
+            return False
+        refs = np.array([[float(Fraction(r[0][0], r[1] * S)), float(Fraction(r[0][1], r[1] * S))]
+                         for r in (ref_point(P, S, t, False) for t in T)])
+        _, vt = cKDTree(refs).query(Lpos, k=1)
+        return not tiling_clauses(points, lat, P, S, T, [int(v) for v in vt], False)
+    except Exception:
+        return False
+
+
 # ------------------------------------------------------------------ evaluation
 def prepare_case(ctx, case):
     """run the implementation, build certificate and driver line.  Returns dict or None (skipped)."""
@@ -423,8 +442,17 @@ def evaluate(ctx, cases, label, lloyd=True):
                 ex["tiling_skipped_shift_changed_order"] += 1
             else:
                 ex["tiling_evaluated"] += 1
+                if case["shift"]:
+                    ex["tiling_evaluated_shift"] = ex.get("tiling_evaluated_shift", 0) + 1
                 try:
-                    for key, what in tiling_clauses(points, lat, P, S, T, vt, case['shift']):
+                    bad = tiling_clauses(points, lat, P, S, T, vt, case['shift'])
+                    if any(k == "shifted-cell-misses-seed" for k, _ in bad):
+                        # narrow key: only when the SAME points with shift_vertices=False pass the containment clause
+                        if unshifted_containment_ok(points):
+                            ex["shifted_cell_misses_seed_cases"] = ex.get("shifted_cell_misses_seed_cases", 0) + 1
+                        else:
+                            bad = [("seed-not-inside" if k == "shifted-cell-misses-seed" else k, w) for k, w in bad]
+                    for key, what in bad:
                         res.violation(key, f"N={n} {case['style']} shift={case['shift']}: {what}", case)
                 except Exception as e:
                     res.violation("plaquettes-exception", f"N={n} {case['style']} shift={case['shift']}: accessing plaquettes raised {type(e).__name__}: {e}", case)
